@@ -40,6 +40,15 @@ CHECKS = {
  "C16": dict(cat="exploration", sec="4 C16", tech="read-API monitor comparing HTTP responses and the bundled client with the in-process state after every step (runtime monitoring)",
    text="After every request of generated histories over 1-4 logs (all stores) every configured ID is fetched through the real gorilla router and through the bundled client/http: 200 + exact stored bytes or 404 / os.ErrNotExist; the decoded log list must equal the set of IDs with an accepted update (a refused first submission creates no entry); unknown hex IDs and syntactically odd IDs must give 404 and never a stored checkpoint.",
    note="In-memory round-tripper instead of a socket."),
+ "C13": dict(cat="fault_enumeration", sec="4 C13", tech="call-sequence monitor at a scripted recording witness stub; exhaustive transient-failure patterns with real back-off; race detector on (runtime monitoring)",
+   text="The real feeder.FeedOnce runs against a recording witness stub (whose latest checkpoint may move between attempts) and instrumented FetchCheckpoint/FetchProof closures. All 121 sequences of 0-4 failing attempts (each at get-latest, fetch-proof or update) x {first use, growth, equality} are enumerated with real back-off sleeps; all (witness size, log size) pairs in 0..K squared x {honest, forked} run against the stub and against the real witness through the real adapter; cancellation while the witness fails persistently is judged on attempts started after the cancel. Per attempt: submitted bytes verify (refnote), old size = size reported in that attempt, proof requested from exactly that checkpoint to the submitted one, no Update while the witness is ahead (permanent error after one attempt), success returns the witness's bytes. Built with -race.",
+   note="K=14 quick, 40 thorough. Size-0 first checkpoints are not used with the real witness (known finding F2)."),
+ "C17": dict(cat="exploration", sec="4 C17", tech="start-up path executed on the shipped files under a recording, refusing transport; exhaustive over entries (runtime monitoring)",
+   text="Every entry of omniwitness/logs.yaml and logs_test.yaml as found in the working tree is run through the functions Main uses (YAML decode, config.NewLog, AsLogMap, feeder lookup); every entry with a feeder has its real feed function started once against a transport that records and refuses requests (must issue a well-formed request to the configured host and fail with the transport error; panics are caught); the witness map and the feeder list must name the same IDs; finally omniwitness.Main itself is started on the shipped configuration with polling on and must serve its API.",
+   note="exhaustive=true: all entries in the tree. Network replaced by a refusing transport, so only start-up and each feeder's first request are exercised."),
+ "C18": dict(cat="exploration", sec="4 C18", tech="request-path monitor against tlog.Tile.Path and proof monitor with three independent verifiers over all size pairs (runtime monitoring)",
+   text="Paths: the exported SumDB client is called for levels 0-7, widths 1-256 and ~15k indices incl. every carry boundary of the x%03d encoding up to 10^9; the requested path must equal tlog.Tile.Path. Proofs: for every pair 1 <= from < to <= N (N=300 quick, 1200 thorough) plus sampled pairs up to 2^33 on region trees (full tiles at levels 1-3) the real sumdb.FeedLog runs against a stub SumDB serving exactly the size-`to` prefix (anything beyond is 404) and a recording witness; the proof passed to Update must be accepted by kit/reftree, tlog.CheckTree and a real Witness holding `from`.",
+   note="Stub tiles come from x/mod tlog.ReadTileData over the harness tree."),
 }
 
 NOT_YET = "check not built yet in this session (planned, see DESIGN.md section 4)"
